@@ -135,7 +135,11 @@ func c02(tier string) []*explore.Scenario {
 			if cp == 0 && c.cprog == "sendall" && c.hprog == "echo" && c.n > 2 {
 				continue // would be a flow-control deadlock by construction of the driver, not a goat property
 			}
-			out = append(out, c02One([]streamCase{c}, cp, bound))
+			b := bound
+			if (c.hprog == "hconc" || c.hprog == "hconcret") && c.n+c.m >= 5 {
+				b = bound - 1 // a third thread on the handler side: the tree at the full bound exceeds the execution cap
+			}
+			out = append(out, c02One([]streamCase{c}, cp, b))
 		}
 	}
 	// messages above 1 KiB (the codec's pooled-buffer path), by-reference and serialising transports
